@@ -254,6 +254,40 @@ class Effects(object):
             if not changed:
                 break
 
+    def symbol_is_sequence(self, sym):
+        """Every action for the nonterminal yields a list display / a list built from one (never the bare value of a symbol)."""
+        g = self.grammar
+        cache = self.__dict__.setdefault('_seq_syms', {})
+        if sym in cache:
+            return cache[sym]
+        cache[sym] = False
+        ok = True
+        any_prod = False
+        for p in g.productions:
+            if p.name != sym:
+                continue
+            any_prod = True
+            m, f = g.action_funcs[p.funcname]
+            for n in walk_no_defs(f):
+                if isinstance(n, ast.Assign) and any(isinstance(t, ast.Subscript) and _const_index(t.slice) == 0 for t in n.targets):
+                    v = n.value
+                    if isinstance(v, ast.Name) and not isinstance(f, ast.Lambda):
+                        asg = sa.assignments_to(f, v.id)
+                        if len(asg) == 1 and asg[0][1] is not None:
+                            v = asg[0][1]
+                    good = isinstance(v, (ast.List, ast.ListComp)) or (isinstance(v, ast.BinOp) and isinstance(v.op, ast.Add)) or \
+                        (isinstance(v, ast.Call) and isinstance(v.func, ast.Name) and v.func.id == 'list')
+                    if not good and isinstance(v, ast.Subscript) and isinstance(v.value, ast.Name):
+                        k = _const_index(v.slice)
+                        # p[0] = p[k] with p[k] a sequence symbol itself (in some alternative): fine when that symbol is one
+                        syms = set(q.syms[k - 1] for q in g.productions if q.funcname == p.funcname and isinstance(k, int) and 1 <= k <= len(q.syms))
+                        good = bool(syms) and all(s_ == sym or (s_ in g.nonterminals() and s_ != sym and self.symbol_is_sequence(s_)) or s_ not in g.nonterminals()
+                                                  for s_ in syms) and any(s_ in g.nonterminals() for s_ in syms)
+                    if not good:
+                        ok = False
+        cache[sym] = ok and any_prod
+        return cache[sym]
+
     def _action_result(self, m, f, prod):
         """Ownership of p[0] after the action for one production alternative (join over all stores)."""
         key = (m.name, m.qualname_of(f))
@@ -277,6 +311,16 @@ class Effects(object):
         m, f = self.cg.funcs[key]
         if args is None:
             args = self.default_args(key)
+            # a grammar action that serves several production alternatives is analysed once per alternative: which symbol p[k] is,
+            # and so what a branch on len(p) or on the kind of a symbol decides, is fixed by the alternative
+            if self.grammar is not None and any(isinstance(a, _PSym) and a.prod is None for a in args):
+                prods = [p_ for p_ in self.grammar.productions if p_.funcname == f.name]
+                if len(prods) > 1:
+                    rets = []
+                    for p_ in prods:
+                        a2 = [(_PSym(self, m, f, p_) if isinstance(a, _PSym) else a) for a in args]
+                        rets.append(self.analyse(key, a2, chain))
+                    return joinall(rets)
         memo_key = (key, tuple(a.key() if isinstance(a, Own) else id(a) for a in args))
         if memo_key in self._memo:
             return self._memo[memo_key]
@@ -639,6 +683,29 @@ class _Interp(object):
             l, r = t.left, t.comparators[0]
             n = None
             c = None
+            # the kind of a symbol:  p.slice[k].type in ('a', 'b')  /  str(p.slice[k]) in (...)  /  == 'a'
+            kind = self._slice_kind(l, env)
+            if kind is not None and isinstance(t.ops[0], (ast.In, ast.NotIn, ast.Eq, ast.NotEq)):
+                try:
+                    names = ast.literal_eval(r)
+                except (ValueError, SyntaxError):
+                    names = None
+                if isinstance(names, str) and isinstance(t.ops[0], (ast.Eq, ast.NotEq)):
+                    hit = kind == names
+                    return hit if isinstance(t.ops[0], ast.Eq) else (not hit)
+                if isinstance(names, (tuple, list, set, frozenset)) and isinstance(t.ops[0], (ast.In, ast.NotIn)):
+                    hit = kind in names
+                    return hit if isinstance(t.ops[0], ast.In) else (not hit)
+            # a sequence the grammar built (a list) is never equal to the text of a separator token
+            if isinstance(t.ops[0], (ast.Eq, ast.NotEq)):
+                for a, b in ((l, r), (r, l)):
+                    if isinstance(b, ast.Constant) and isinstance(b.value, str):
+                        sym = self._p_symbol(a, env)
+                        if sym is not None and self.eff.grammar is not None and sym in self.eff.grammar.nonterminals() \
+                                and self.eff.symbol_is_sequence(sym):
+                            return isinstance(t.ops[0], ast.NotEq)
+            l = self._len_alias(l, env)
+            r = self._len_alias(r, env)
             for a, b in ((l, r), (r, l)):
                 if isinstance(a, ast.Call) and isinstance(a.func, ast.Name) and a.func.id == 'len' and len(a.args) == 1 \
                         and isinstance(a.args[0], ast.Name) and isinstance(env.get(a.args[0].id), _PSym) \
@@ -663,6 +730,53 @@ class _Interp(object):
                 return n > c
             if isinstance(op, ast.GtE):
                 return n >= c
+        return None
+
+    def _len_alias(self, e, env):
+        """n  ->  len(p)  when the local n is bound exactly once, to len(p)."""
+        if isinstance(e, ast.Name) and e.id not in env or isinstance(e, ast.Name) and not isinstance(env.get(e.id), _PSym):
+            if isinstance(self.f, ast.Lambda):
+                return e
+            asg = sa.assignments_to(self.f, e.id)
+            if len(asg) == 1 and asg[0][1] is not None:
+                v = asg[0][1]
+                if isinstance(v, ast.Call) and isinstance(v.func, ast.Name) and v.func.id == 'len' and len(v.args) == 1 and \
+                        isinstance(v.args[0], ast.Name) and isinstance(env.get(v.args[0].id), _PSym):
+                    return v
+        return e
+
+    def _p_index(self, e, env):
+        """k when ``e`` is p[k] (or a local bound exactly once to p[k]) of the production parameter."""
+        if isinstance(e, ast.Name) and not isinstance(self.f, ast.Lambda) and not isinstance(env.get(e.id), _PSym):
+            asg = sa.assignments_to(self.f, e.id)
+            if len(asg) == 1 and asg[0][1] is not None:
+                e = asg[0][1]
+        if isinstance(e, ast.Subscript) and isinstance(e.value, ast.Name) and isinstance(env.get(e.value.id), _PSym):
+            k = _const_index(e.slice)
+            if isinstance(k, int):
+                return env[e.value.id], k
+        return None
+
+    def _p_symbol(self, e, env):
+        pk = self._p_index(e, env)
+        if pk is None or pk[0].prod is None or not 1 <= pk[1] <= len(pk[0].prod.syms):
+            return None
+        return pk[0].prod.syms[pk[1] - 1]
+
+    def _slice_kind(self, e, env):
+        """Grammar symbol named by  p.slice[k].type  /  str(p.slice[k])  for a known production alternative."""
+        if isinstance(e, ast.Call) and isinstance(e.func, ast.Name) and e.func.id == 'str' and len(e.args) == 1:
+            e = e.args[0]
+        elif isinstance(e, ast.Attribute) and e.attr == 'type':
+            e = e.value
+        else:
+            return None
+        if isinstance(e, ast.Subscript) and isinstance(e.value, ast.Attribute) and e.value.attr == 'slice' and \
+                isinstance(e.value.value, ast.Name) and isinstance(env.get(e.value.value.id), _PSym):
+            ps = env[e.value.value.id]
+            k = _const_index(e.slice)
+            if ps.prod is not None and isinstance(k, int) and 1 <= k <= len(ps.prod.syms):
+                return ps.prod.syms[k - 1]
         return None
 
     def assign(self, t, v, env, stmt):
